@@ -177,7 +177,8 @@ static void runCycle(GMGPolar& s, int type, bool extrap, int depth, Vector<doubl
 //   pre-smooth; r = f - A u; restrict (extrapolated on level 0: 4/3 R_ex r - 1/3 (f_c - A_c J u)); coarse error from zero by
 //   direct solve on the coarsest level, else by gamma recursive plain cycles (V: one; W: two; F: an F- then a V-cycle);
 //   prolongate, add; post-smooth.
-static void refCycle(GMGPolar& s, int type, bool extrap, int l, Vector<double>& u, const Vector<double>& f)
+static void refCycle(GMGPolar& s, int type, bool extrap, int l, Vector<double>& u, const Vector<double>& f,
+                     const std::vector<Vector<double>>* levelRhs = nullptr)
 {
     Level& L  = s.levels_[l];
     Level& C  = s.levels_[l + 1];
@@ -196,7 +197,8 @@ static void refCycle(GMGPolar& s, int type, bool extrap, int l, Vector<double>& 
         Vector<double> uc(Nc), r2(Nc);
         s.interpolation_->applyExtrapolatedRestriction(L, C, rc, r);
         s.interpolation_->applyInjection(L, C, uc, u);
-        C.computeResidual(r2, C.rhs(), uc);
+        // the coarse right-hand side of the extrapolated system: the level's own, or the caller's independently built one
+        C.computeResidual(r2, levelRhs ? (*levelRhs)[l + 1] : C.rhs(), uc);
         for (int i = 0; i < Nc; i++)
             rc[i] = 4.0 / 3.0 * rc[i] - 1.0 / 3.0 * r2[i];
     }
@@ -240,15 +242,23 @@ static Vector<double> referenceNestedIteration(const Cfg& k)
     auto s = makeSolver(k);
     s->setup();
     const int L = s->number_of_levels_;
+    // the discretised right-hand side of EVERY level, built by the harness from the problem data and the level's grid (not the
+    // vectors setup() stored in the levels: which levels it fills, and with what, is part of what is judged)
+    Problem p = k.problem();
+    std::vector<Vector<double>> rhsL(L);
+    for (int l = 0; l < L; l++) {
+        rhsL[l] = Vector<double>(s->levels_[l].grid().numberOfNodes());
+        IndependentResidual::buildRhs(s->levels_[l].grid(), p, k.dirbc != 0, rhsL[l]);
+    }
     std::vector<Vector<double>> x(L);
-    x[L - 1] = s->levels_[L - 1].rhs();
+    x[L - 1] = rhsL[L - 1];
     s->levels_[L - 1].directSolveInPlace(x[L - 1]);
     for (int l = L - 1; l >= 1; l--) {
         x[l - 1] = Vector<double>(s->levels_[l - 1].grid().numberOfNodes());
         s->interpolation_->applyFMGInterpolation(s->levels_[l], s->levels_[l - 1], x[l - 1], x[l]);
         for (int it = 0; it < k.fmg_it; it++) {
             bool extrap = (l - 1 == 0) && (k.extr != 0);
-            refCycle(*s, k.fmg_cycle, extrap, l - 1, x[l - 1], s->levels_[l - 1].rhs());
+            refCycle(*s, k.fmg_cycle, extrap, l - 1, x[l - 1], rhsL[l - 1], &rhsL);
         }
     }
     return x[0];
